@@ -93,7 +93,7 @@ void per_numeric_type(std::ostringstream& o) {
     const VF_Q<T> q(components<T>(), u);  // constructed from a value in a (generally non-standard) unit
     const VF_Q<T> r(components<T>(), PhQ::Standard<E>);
     o << show(q.Value()) << ',' << show(q.Value(u)) << ',' << q.Print() << ',' << q.Print(u) << ',' << q.JSON(u) << ',' << q.XML(u) << ',' << q.YAML(u) << ',' << (q < r) << (q == r)
-      << (q >= r) << ',';
+      << (q >= r) << ',' << q.JSON() << ',' << q.XML() << ',' << q.YAML() << ',' << (int)static_cast<int8_t>(VF_Q<T>::Unit()) << ',' << std::hash<VF_Q<T>>()(q) % 997 << ',';
     std::ostringstream s;
     s << q;
     o << s.str() << ',';
